@@ -1,6 +1,7 @@
 (* C19 - GSM time arithmetic is consistent across the code base. Statements only. *)
-From Coq Require Import ZArith.
-From OBB Require Import Gen.GsmTimeConst Model.GsmTime Proofs.GsmTimeP.
+From Coq Require Import ZArith List.
+From OBB Require Import Gen.GsmTimeConst Gen.GsmTimeSites Model.GsmTime Model.GsmTimeRun Proofs.GsmTimeP Proofs.GsmTimeRunP.
+Import ListNotations.
 Open Scope Z_scope.
 
 (* the modulus both languages use is the hyperframe *)
@@ -30,3 +31,218 @@ Theorem c19_py_eq_c : forall fn, 0 <= fn < 2715648 ->
   py_fn2gsm_time fn = (g_t1 (fn2gsmtime fn), g_t2 (fn2gsmtime fn), g_t3 (fn2gsmtime fn), g_tc (fn2gsmtime fn)).
 Proof. exact py_eq_c. Qed.
 Print Assumptions c19_py_eq_c.
+
+(* ======================================================================================================================
+   Second part: the firmware's RUNNING GSM time (l1s.current_time / l1s.next_time, Model/GsmTimeRun.v) and every call site
+   of the arithmetic in src/target/firmware/layer1 (Gen/GsmTimeSites.v, translated from the source text on every run).
+   decomp fn = (fn, fn / 1326, fn mod 26, fn mod 51, (fn / 51) mod 8). *)
+
+(* the constants of synchronize_tdma() / l1s_sbdet_resp() as compiled and the C widths of the fields
+   (fn 4, t1 2, t2 t3 tc 1 octets; cinfo->fn_offset 4 octets signed; time_alignment and tpu_offset 4 octets) *)
+Theorem c19_run_constants :
+  c_QBITS_PER_TDMA = 5000 /\ c_SWITCH_TIME = 4990 /\ c_SB2_LATENCY = 2 /\ c_widths = [4; 2; 1; 1; 1; 4; 1; 4; 4].
+Proof. exact run_consts. Qed.
+Print Assumptions c19_run_constants.
+
+(* the invariant, spelled out: both times are exact decompositions of frame numbers of the hyperframe
+   and next_time is the frame after current_time (modulo the hyperframe) *)
+Theorem c19_run_timeok_means : forall st, TimeOK st <->
+  (0 <= g_fn (cur st) < 2715648 /\
+   g_t1 (cur st) = g_fn (cur st) / 1326 /\ g_t2 (cur st) = g_fn (cur st) mod 26 /\ g_t3 (cur st) = g_fn (cur st) mod 51 /\
+   g_tc (cur st) = (g_fn (cur st) / 51) mod 8) /\
+  (0 <= g_fn (nxt st) < 2715648 /\
+   g_t1 (nxt st) = g_fn (nxt st) / 1326 /\ g_t2 (nxt st) = g_fn (nxt st) mod 26 /\ g_t3 (nxt st) = g_fn (nxt st) mod 51 /\
+   g_tc (nxt st) = (g_fn (nxt st) / 51) mod 8) /\
+  g_fn (nxt st) = (g_fn (cur st) + 1) mod 2715648.
+Proof. exact timeok_means. Qed.
+Print Assumptions c19_run_timeok_means.
+
+(* start: l1s lives in .bss and nothing in sync.c initialises the two times, so both are frame 0: the invariant does NOT hold
+   before the first frame interrupt (next_time is not current_time + 1) ... *)
+Theorem c19_run_boot_refuted : ~ TimeOK boot.
+Proof. exact boot_not_ok. Qed.
+Print Assumptions c19_run_boot_refuted.
+
+(* ... but it holds from the first frame interrupt on: whenever next_time is a frame, one interrupt establishes the invariant
+   and announces exactly that frame *)
+Theorem c19_run_irq_establishes : forall st,
+  (0 <= g_fn (nxt st) < 2715648 /\ nxt st = decomp (g_fn (nxt st))) ->
+  TimeOK (frame_irq st) /\ cur (frame_irq st) = nxt st.
+Proof. exact frame_irq_ok. Qed.
+Print Assumptions c19_run_irq_establishes.
+
+(* frame interrupt, EVERY state of the invariant: preserved, and the new current frame is the old one plus one modulo the
+   hyperframe - no frame is skipped or repeated, including 2715647 -> 0 *)
+Theorem c19_run_irq : forall st, TimeOK st ->
+  TimeOK (frame_irq st) /\ g_fn (cur (frame_irq st)) = (g_fn (cur st) + 1) mod 2715648.
+Proof. exact frame_irq_next. Qed.
+Print Assumptions c19_run_irq.
+
+Theorem c19_run_irq_n : forall n st, TimeOK st ->
+  TimeOK (irq_n n st) /\ g_fn (cur (irq_n n st)) = (g_fn (cur st) + Z.of_nat n) mod 2715648.
+Proof. exact irq_n_ok. Qed.
+Print Assumptions c19_run_irq_n.
+
+(* the TPU shift that selects the compensation branch, with the real QBITS_PER_TDMA / SWITCH_TIME *)
+Theorem c19_run_sync_shift : forall st ta, 0 <= tpu st -> 0 <= ta ->
+  sync_shift st ta = ((tpu st + (ta + 75) mod 4294967296) mod 4294967296) mod 5000.
+Proof. exact sync_shift_val. Qed.
+Print Assumptions c19_run_sync_shift.
+
+(* synchronize_tdma, every state whose current_time is a frame, every time_alignment / tpu_offset, every fn_offset that is an
+   int32_t other than INT32_MIN (fn_offset - 1 would overflow) and for which 0 <= old FN + (fn_offset - 1 (+1)) < 2 * 2715648:
+   the invariant holds afterwards and the new current frame is old + fn_offset - 1 (+ 1 in the compensation branch) mod 2715648.
+   (The int32_t offset reaches l1s_time_inc as uint32_t: a negative total offset is right as long as it does not go below frame 0.) *)
+Theorem c19_run_sync : forall st fo ta,
+  (0 <= g_fn (cur st) < 2715648 /\ cur st = decomp (g_fn (cur st))) -> -2147483648 < fo <= 2147483647 ->
+  0 <= g_fn (cur st) + (fo - 1 + (if sync_shift st ta <? 4990 then 1 else 0)) < 2 * 2715648 ->
+  TimeOK (sync_tdma st fo ta) /\
+  g_fn (cur (sync_tdma st fo ta)) = (g_fn (cur st) + (fo - 1 + (if sync_shift st ta <? 4990 then 1 else 0))) mod 2715648 /\
+  tpu (sync_tdma st fo ta) = sync_shift st ta.
+Proof. exact sync_ok. Qed.
+Print Assumptions c19_run_sync.
+
+(* in particular for every fn_offset 1 .. 2715648, whatever the state *)
+Theorem c19_run_sync_positive : forall st fo ta,
+  (0 <= g_fn (cur st) < 2715648 /\ cur st = decomp (g_fn (cur st))) -> 1 <= fo <= 2715648 ->
+  TimeOK (sync_tdma st fo ta) /\
+  g_fn (cur (sync_tdma st fo ta)) = (g_fn (cur st) + (fo - 1 + (if sync_shift st ta <? 4990 then 1 else 0))) mod 2715648.
+Proof. exact sync_ok_pos. Qed.
+Print Assumptions c19_run_sync_positive.
+
+(* the range is exact: outside it the new frame number is not the intended one ... *)
+Theorem c19_run_sync_range_exact : forall st fo ta,
+  (0 <= g_fn (cur st) < 2715648 /\ cur st = decomp (g_fn (cur st))) -> -2147483648 < fo <= 2147483647 ->
+  ~ (0 <= g_fn (cur st) + (fo - 1 + (if sync_shift st ta <? 4990 then 1 else 0)) < 2 * 2715648) ->
+  g_fn (cur (sync_tdma st fo ta)) <> (g_fn (cur st) + (fo - 1 + (if sync_shift st ta <? 4990 then 1 else 0))) mod 2715648.
+Proof. exact sync_wrong. Qed.
+Print Assumptions c19_run_sync_range_exact.
+
+(* ... witness: current frame 0, fn_offset 0, no compensation frame (TPU shift 4990): the running time becomes FN 4292251647, T1 25728 *)
+Theorem c19_run_sync_refuted :
+  let st := {| cur := decomp 0; nxt := decomp 1; tpu := 0 |} in
+  TimeOK st /\ sync_shift st 4915 = 4990 /\ gt_obs (cur (sync_tdma st 0 4915)) = [4292251647; 25728; 21; 0; 5].
+Proof. exact sync_refuted. Qed.
+Print Assumptions c19_run_sync_refuted.
+
+(* prim_fbsb.c l1s_decode_sb: the fields of the burst word are in range, and a word whose (T1, T2, T3') names an SCH frame
+   (T2 < 26, T3' <= 4) decodes to exactly that frame, which lies at least 10 frames before the end of the hyperframe *)
+Theorem c19_run_sb_fields : forall sb, 0 <= sb_t1 sb < 2048 /\ 0 <= sb_t2 sb < 32 /\ 0 <= sb_t3p sb < 8.
+Proof. exact sb_fields_range. Qed.
+Print Assumptions c19_run_sb_fields.
+
+Theorem c19_run_decode_sb : forall sb, sb_t2 sb < 26 -> sb_t3p sb <= 4 ->
+  (0 <= g_fn (decode_sb sb) < 2715648 /\ decode_sb sb = decomp (g_fn (decode_sb sb))) /\
+  g_t1 (decode_sb sb) = sb_t1 sb /\ g_t2 (decode_sb sb) = sb_t2 sb /\ g_t3 (decode_sb sb) = 10 * sb_t3p sb + 1 /\
+  g_fn (decode_sb sb) <= 2715638.
+Proof. exact decode_sb_ok. Qed.
+Print Assumptions c19_run_decode_sb.
+
+(* prim_fbsb.c l1s_sbdet_resp re-initialisation, every state, every frame number of the burst below 2715646 (every SCH frame is):
+   the invariant holds and the current frame is that of the burst + SB2_LATENCY *)
+Theorem c19_run_fbsb : forall st m, 0 <= m < 2715646 ->
+  TimeOK (fbsb_reinit st m) /\ g_fn (cur (fbsb_reinit st m)) = m + 2 /\ tpu (fbsb_reinit st m) = tpu st.
+Proof. exact fbsb_ok. Qed.
+Print Assumptions c19_run_fbsb.
+
+(* REFUTED beyond: the expression fbs.mon.time.fn + SB2_LATENCY is not reduced; a burst word outside the coding
+   (T1 2047, T2 20, T3' 7) decodes to FN 2715668 and the running time becomes FN 2715670, T1 2048, next FN 23 with T1 2048 *)
+Theorem c19_site_fbsb_refuted :
+  site_prim_fbsb_1 2715646 0 = 2715648 /\ site_prim_fbsb_1 2715647 0 = 2715649 /\
+  gt_obs (cur (fbsb_reinit boot 2715646)) = [2715648; 2048; 0; 0; 0] /\ gt_obs (nxt (fbsb_reinit boot 2715646)) = [1; 2048; 1; 1; 0].
+Proof. exact fbsb_site_refuted. Qed.
+Print Assumptions c19_site_fbsb_refuted.
+
+Theorem c19_run_decode_sb_refuted :
+  sb_t1 30670595 = 2047 /\ sb_t2 30670595 = 20 /\ sb_t3p 30670595 = 7 /\
+  gt_obs (decode_sb 30670595) = [2715668; 2047; 20; 71; 0] /\
+  st_obs (step boot (OSb 30670595)) = [2715670; 2048; 22; 22; 0; 23; 2048; 23; 23; 0; 0].
+Proof. exact decode_sb_refuted. Qed.
+Print Assumptions c19_run_decode_sb_refuted.
+
+(* every reachable running time is consistent: any sequence of frame interrupts (runs of any length), re-synchronisations with
+   fn_offset 1 .. 2715648 (any time alignment), re-initialisations from SCH frames (as a frame number below 2715646 or as a burst
+   word with T2 < 26, T3' <= 4) keeps the invariant - from any state of the invariant, and from the .bss start state as soon as
+   the first operation is not an empty run of interrupts *)
+Theorem c19_run_history : forall ops st, TimeOK st ->
+  Forall (fun o => match o with
+                   | OIrq _ => True
+                   | OSync fo _ => 1 <= fo <= 2715648
+                   | OFbsb m => 0 <= m < 2715646
+                   | OSb sb => sb_t2 sb < 26 /\ sb_t3p sb <= 4
+                   | ORaw s => TimeOK s
+                   end) ops ->
+  TimeOK (fold_left step ops st).
+Proof. exact run_ok. Qed.
+Print Assumptions c19_run_history.
+
+Theorem c19_run_history_boot : forall o ops, o <> OIrq O ->
+  Forall (fun o => match o with
+                   | OIrq _ => True
+                   | OSync fo _ => 1 <= fo <= 2715648
+                   | OFbsb m => 0 <= m < 2715646
+                   | OSb sb => sb_t2 sb < 26 /\ sb_t3p sb <= 4
+                   | ORaw s => TimeOK s
+                   end) (o :: ops) ->
+  TimeOK (fold_left step (o :: ops) boot).
+Proof. exact run_boot. Qed.
+Print Assumptions c19_run_history_boot.
+
+(* ---- call sites. v = l1s.current_time.fn (fbs.mon.time.fn for prim_fbsb), aux = the second variable where there is one *)
+
+(* prim_tch.c (two sites)  (l1s.current_time.fn - 1 + GSM_MAX_FN) % GSM_MAX_FN : for EVERY current frame the argument is the
+   previous frame modulo the hyperframe and gsm_fn2gsmtime gives that frame's time *)
+Theorem c19_site_tch_1 : forall v aux, 0 <= v < 2715648 ->
+  site_prim_tch_1 v aux = (v - 1) mod 2715648 /\ fn2gsmtime (site_prim_tch_1 v aux) = decomp ((v - 1) mod 2715648).
+Proof. exact site_tch_1. Qed.
+Print Assumptions c19_site_tch_1.
+
+Theorem c19_site_tch_2 : forall v aux, 0 <= v < 2715648 ->
+  site_prim_tch_2 v aux = (v - 1) mod 2715648 /\ fn2gsmtime (site_prim_tch_2 v aux) = decomp ((v - 1) mod 2715648).
+Proof. exact site_tch_2. Qed.
+Print Assumptions c19_site_tch_2.
+
+(* prim_rx_nb.c  l1s.current_time.fn - 1 : right for current frames 1 .. 2715647 only ... *)
+Theorem c19_site_rx_nb_1 : forall v aux, 1 <= v < 2715648 ->
+  site_prim_rx_nb_1 v aux = (v - 1) mod 2715648 /\ fn2gsmtime (site_prim_rx_nb_1 v aux) = decomp ((v - 1) mod 2715648).
+Proof. exact site_rx_nb_1. Qed.
+Print Assumptions c19_site_rx_nb_1.
+
+(* ... REFUTED at current frame 0: the argument is 4294967295 and the time handed to rfch_get_params is T1 27776, T2 21, T3 0
+   instead of frame 2715647 = (2047, 25, 50) *)
+Theorem c19_site_rx_nb_1_refuted :
+  site_prim_rx_nb_1 0 0 = 4294967295 /\ gt_obs (fn2gsmtime (site_prim_rx_nb_1 0 0)) = [4294967295; 27776; 21; 0; 5] /\
+  gt_obs (decomp ((0 - 1) mod 2715648)) = [2715647; 2047; 25; 50; 7].
+Proof. exact site_rx_nb_1_refuted. Qed.
+Print Assumptions c19_site_rx_nb_1_refuted.
+
+(* prim_rx_nb.c  l1s.current_time.fn - 4 : right for current frames 4 .. 2715647 only, REFUTED at 0 .. 3 *)
+Theorem c19_site_rx_nb_2 : forall v aux, 4 <= v < 2715648 ->
+  site_prim_rx_nb_2 v aux = (v - 4) mod 2715648 /\ fn2gsmtime (site_prim_rx_nb_2 v aux) = decomp ((v - 4) mod 2715648).
+Proof. exact site_rx_nb_2. Qed.
+Print Assumptions c19_site_rx_nb_2.
+
+Theorem c19_site_rx_nb_2_refuted :
+  site_prim_rx_nb_2 0 0 = 4294967292 /\ site_prim_rx_nb_2 1 0 = 4294967293 /\ site_prim_rx_nb_2 2 0 = 4294967294 /\ site_prim_rx_nb_2 3 0 = 4294967295 /\
+  gt_obs (fn2gsmtime (site_prim_rx_nb_2 3 0)) = [4294967295; 27776; 21; 0; 5] /\
+  gt_obs (decomp ((3 - 4) mod 2715648)) = [2715647; 2047; 25; 50; 7].
+Proof. exact site_rx_nb_2_refuted. Qed.
+Print Assumptions c19_site_rx_nb_2_refuted.
+
+(* prim_fbsb.c  fbs.mon.time.fn + SB2_LATENCY : right below 2715646 (refutation beyond: c19_site_fbsb_refuted) *)
+Theorem c19_site_fbsb : forall m aux, 0 <= m < 2715646 ->
+  site_prim_fbsb_1 m aux = (m + 2) mod 2715648 /\ fn2gsmtime (site_prim_fbsb_1 m aux) = decomp ((m + 2) mod 2715648).
+Proof. exact site_fbsb_1. Qed.
+Print Assumptions c19_site_fbsb.
+
+(* prim_rach.c  fn_sched = l1s.current_time.fn + offset; fn_sched %= GSM_MAX_FN  (offset uint16_t): every frame, every offset *)
+Theorem c19_site_rach : forall v aux, 0 <= v < 2715648 -> 0 <= aux < 65536 ->
+  site_prim_rach_1 v aux = (v + aux) mod 2715648.
+Proof. exact site_rach_1. Qed.
+Print Assumptions c19_site_rach.
+
+(* prim_freq.c  fn_sched = l1s.current_time.fn + diff; if (fn_sched >= GSM_MAX_FN) fn_sched -= GSM_MAX_FN : every frame, diff 0 .. 2715648 *)
+Theorem c19_site_freq : forall v aux, 0 <= v < 2715648 -> 0 <= aux <= 2715648 ->
+  site_prim_freq_1 v aux = (v + aux) mod 2715648.
+Proof. exact site_freq_1. Qed.
+Print Assumptions c19_site_freq.
